@@ -5,7 +5,7 @@
    The refinement "Go code refines AM" itself is not a theorem: C02_partial. *)
 From stdpp Require Import gmap list.
 From Coq Require Import NArith.
-From V Require Import Model.Lib Model.Afs Proofs.AfsLaws Proofs.AfsInv.
+From V Require Import Model.Lib Model.Afs Proofs.AfsLaws Proofs.AfsInv Proofs.AfsData.
 Open Scope N_scope.
 
 Theorem C02_failed_call_identity : forall P s c h,
@@ -36,3 +36,25 @@ Theorem C02_dotdot_inverse : forall P u cs di d n i o,
   lookup_name i o dotdot = Some di.
 Proof. exact dotdot_inverse. Qed.
 Print Assumptions C02_dotdot_inverse.
+
+(* READ after WRITE: in every reachable state (cinv holds for all histories, C02_content_invariant), a READ of
+   the range a WRITE was just acknowledged for returns exactly the acknowledged bytes — for every offset,
+   length, stability level, short write and earlier history *)
+Theorem C02_content_invariant : forall P unstable cs, cinv (run P (init_afs unstable) cs).
+Proof. exact cinv_reachable. Qed.
+Print Assumptions C02_content_invariant.
+
+Theorem C02_read_after_write : forall P s h off cnt st d hi s' n cm a hi',
+  cinv s -> step P s (CWrite h off cnt st d) hi = (s', RWritten n cm a) -> 0 < n ->
+  exists eof, snd (step P s' (CRead h off n) hi') = RData (takeN n d) eof.
+Proof. exact read_after_write. Qed.
+Print Assumptions C02_read_after_write.
+
+(* ... and changes nothing else: no other object, and no byte of the file outside the acknowledged range *)
+Theorem C02_write_frame : forall P s h off cnt st d hi s' n cm a,
+  cinv s -> step P s (CWrite h off cnt st d) hi = (s', RWritten n cm a) ->
+  exists i o o', resolve P s h = Some (i, o) /\ objs s' = <[i := o']> (objs s) /\
+    (forall k, ~ (off <= k < off + n) -> byte_at (o_data o') k = byte_at (o_data o) k) /\
+    o_size o' = (if n =? 0 then o_size o else N.max (o_size o) (off + n)).
+Proof. exact write_frame. Qed.
+Print Assumptions C02_write_frame.
